@@ -44,7 +44,7 @@ impl From<Tag> for LdapResult {
     fn from(t: Tag) -> (r: LdapResult) { unimplemented!() }
 }
 
-pub enum SearchItem { Entry(StructureTag), Referral(StructureTag), Done(LdapResult) }
+//@item file=src/search.rs kind=enum name=SearchItem
 pub open spec fn item_frame(i: SearchItem) -> i32 {
     match i { SearchItem::Entry(s) => st_frame(s), SearchItem::Referral(s) => st_frame(s), SearchItem::Done(r) => res_frame(r) }
 }
@@ -91,8 +91,8 @@ impl CertSender {
     #[verifier::external_body]
     pub fn send(self, v: Option<Vec<u8>>) -> (r: core::result::Result<(), Option<Vec<u8>>>) { unimplemented!() }
 }
-pub enum LdapOp { Single, Search(ItemSender), Abandon(RequestId), Unbind }
-pub enum MiscSender { Cert(CertSender) }
+//@item file=src/protocol.rs kind=enum name=LdapOp
+//@item file=src/protocol.rs kind=enum name=MiscSender retype="oneshot::Sender<Option<Vec<u8>>>=>CertSender"
 
 pub struct SendFut { pub g: u8 }
 impl SendFut {
